@@ -90,6 +90,19 @@ class Body:
         return d
 
 
+def _dechunk(raw):
+    """payload of an aws-chunked body: (hex-size CRLF data CRLF)* 0 CRLF [trailers] CRLF"""
+    out, i = [], 0
+    while True:
+        j = raw.index(b'\r\n', i)
+        n = int(raw[i:j].split(b';')[0], 16)
+        if n == 0:
+            break
+        out.append(raw[j + 2:j + 2 + n])
+        i = j + 2 + n + 2
+    return b''.join(out)
+
+
 def parse_range(r, size):
     m = re.fullmatch(r'bytes=(\d+)-(\d*)', r)
     if not m:
@@ -171,16 +184,31 @@ class FakeS3:
         ev = self.meta.events
         data = b''
         try:
-            return self._consume_body_inner(op_name, body, rec, req, ev, sign_reads, resends, send_reads, cut)
+            return self._consume_body_inner(op_name, body, rec, req, ev, sign_reads, resends, send_reads, cut, script)
         except BaseException:
             # reading the body failed on the client side (source error, interrupted
             # reader): the request never reached the service and is over
             self._end(rec, 'client-abort')
             raise
 
-    def _consume_body_inner(self, op_name, body, rec, req, ev, sign_reads, resends, send_reads, cut):
+    def _consume_body_inner(self, op_name, body, rec, req, ev, sign_reads, resends, send_reads, cut, script=None):
         data = b''
+        script = script or {}
+        phase = getattr(self, 'on_phase', None) or (lambda p: None)
+        pre = script.get('pre_reads')
+        if pre and hasattr(body, 'read'):
+            # botocore's before-call handlers (flexible checksums in a header, Content-MD5) read the
+            # whole payload BEFORE the request object exists, i.e. before any request-created event
+            phase('pre')
+            for n in pre:
+                body.read(n)
+            body.seek(0)
+        if script.get('chunked') and hasattr(body, 'read'):
+            # trailer checksums: the request body is botocore's aws-chunked wrapper around the stream
+            from botocore.httpchecksum import AwsChunkedWrapper
+            req.body = AwsChunkedWrapper(body)
         for attempt in range(resends + 1):
+            phase('sign')
             ev.emit_request_created(req, op_name, 'first')      # disable progress
             if sign_reads and hasattr(body, 'read'):
                 for n in sign_reads:                             # signer hashes the payload
@@ -188,10 +216,15 @@ class FakeS3:
                 body.seek(0)
             ev.emit_request_created(req, op_name, 'mid')
             ev.emit_request_created(req, op_name, 'last')       # enable progress
+            phase('send')
             limit = cut[attempt] if attempt < len(cut) and attempt < resends else None
-            data = self._send(body, send_reads, limit)
+            if req.body is not body:
+                data = _dechunk(self._send(req.body, send_reads, None))
+            else:
+                data = self._send(body, send_reads, limit)
             if attempt < resends:
-                body.seek(0)                                     # request.reset_stream()
+                (req.body if req.body is not body else body).seek(0)    # request.reset_stream()
+        phase('idle')
         rec['body_len'] = len(data)
         return data
 
